@@ -34,6 +34,12 @@ EXHAUSTIVE = [
     (1, ["d.r0:1.d"]), (2, ["r0:1.d.f", "r1:2"]), (2, ["r0:1:1:2", "r1:3.d"]), (1, ["d", "d", "r0:1"]), (3, ["r2:1:0:2.r1:3", "d"]),
 ]
 
+# larger configurations, thorough tier only (three clients, nested reaps on both lists, drains racing the worker, fini)
+EXHAUSTIVE_THOROUGH = [
+    (2, ["r0:1:1:2.d", "r1:3.d", "d"]), (2, ["r0:1.r1:2.d.f", "r0:3:1:4"]), (3, ["r0:1:1:2", "r1:3:2:4", "d.d"]),
+    (2, ["r0:1.d.r0:2.d", "r1:3.d"]),
+]
+
 
 # ---------------------------------------------------------------- schedule generator's own little interpreter
 # (used ONLY to know which threads can move / stay within the contract; nothing is judged with it)
@@ -332,7 +338,7 @@ def run_part(tier, seed, st, replay=None):
         for _, ops in load_corpus():
             cases.append(ops); counts["corpus"] += 1
         lim = 1500 if tier == "quick" else 30000
-        for k, (nl, progs) in enumerate(EXHAUSTIVE):
+        for k, (nl, progs) in enumerate(EXHAUSTIVE + (EXHAUSTIVE_THOROUGH if tier != "quick" else [])):
             cs = all_interleavings(nl, progs, limit=lim, rng=core.Rng(seed, PROP, tier, SUB, "dfs", k))
             cases += cs; counts["exhaustive"] += len(cs)
         nrand = 2500 if tier == "quick" else 50000
